@@ -96,7 +96,7 @@ def site_of(st):
     return loc, p.get("msg", "?")
 
 
-def run_texts(rep, texts, tag):
+def run_texts(rep, texts, tag, logger=False):
     """texts: list of (text, lang, cfg). Executes each text and each of its lines alone; builds and validates the trace."""
     cases = []
     for i in range(0, len(texts), 25):
@@ -117,7 +117,7 @@ def run_texts(rep, texts, tag):
                         steps.append({"op": "execute", "lang": lang, "text": l})
                         owners.append((k, li))
             cases.append({"id": "%s.%d" % (tag, len(cases)), "cfg": texts[idxs[0]][2], "steps": steps, "_owners": owners})
-    obs = run_harness_stable_day([{k: v for k, v in c.items() if not k.startswith("_")} for c in cases], tag, jobs=8, timeout_s=45)
+    obs = run_harness_stable_day([{k: v for k, v in c.items() if not k.startswith("_")} for c in cases], tag, jobs=8, timeout_s=45, logger=logger)
     whole = {}
     alone = {}
     for case, o in zip(cases, obs):
@@ -135,7 +135,7 @@ def run_texts(rep, texts, tag):
     redo = [k for k, st in whole.items() if (st.get("outcome") == "skipped" and st.get("why") != "too many hangs")
             or (st.get("outcome") in ("hang", "crash") and st.get("whole_batch"))]
     if redo:
-        more = run_texts_raw([texts[k] for k in redo], tag + ".redo")
+        more = run_texts_raw([texts[k] for k in redo], tag + ".redo", logger)
         for k, st in zip(redo, more):
             whole[k] = st
     not_run = {k for k, st in whole.items() if st.get("outcome") == "skipped" and st.get("why") == "too many hangs"}
@@ -202,9 +202,9 @@ def run_texts(rep, texts, tag):
     return whole
 
 
-def run_texts_raw(texts, tag):
+def run_texts_raw(texts, tag, logger=False):
     cases = [{"id": "%s.%d" % (tag, i), "cfg": cfg, "steps": [{"op": "execute", "lang": lang, "text": t}]} for i, (t, lang, cfg) in enumerate(texts)]
-    obs = run_harness_stable_day(cases, tag, jobs=8, timeout_s=45)
+    obs = run_harness_stable_day(cases, tag, jobs=8, timeout_s=45, logger=logger)
     return [(o.get("steps") or [{"outcome": o.get("outcome", "crash"), "panic": o.get("panic"), "why": o.get("why")}])[0] for o in obs]
 
 
@@ -298,6 +298,11 @@ def run(rep):
         ftexts.append((s, rng.choice(LANGS + ["en", "en"]), rng.choice(cs)))
     run_texts(rep, ftexts, "c01.fuzz")
     rep.extra["fuzz_texts"] = len(ftexts)
+    # the same evaluation with logging switched on (what an application sees after SmartCalc::initialize()): the arguments of the
+    # library's log statements are then evaluated too.  Every text with an atom or a field, a third of the others.
+    logged = [t for i, t in enumerate(texts) if i % 3 == 0 or "[" in t[0] or "{" in t[0]] + ftexts[::3]
+    run_texts(rep, logged, "c01.logged", logger=True)
+    rep.extra["texts_evaluated_with_logging_on"] = len(logged)
     # the implementation-shaped layer: rule engine model check + hook-based conformance (non-gating, reported in the evidence)
     from props import pipeline_part
     pipeline_part.run(rep, quick)
